@@ -808,6 +808,7 @@ func c02Unlink(p *Prog, r *Report) {
 			r.Undecided("C02.d", k, "", "not found")
 			continue
 		}
+		fi = p.drainRoot(fi)
 		info := fi.Pkg.TypesInfo
 		f := p.FlatInl(fi)
 		// node variables assigned from pops; pops handed straight to an unlinking call
